@@ -94,18 +94,8 @@ func (c *Chain) VerifyNotarization(ctx context.Context, hash datastore.Key,
 			"No verification tickets for this block")
 	}
 
-	var ticketsMap = make(map[string]bool, len(bvt))
-	for _, vt := range bvt {
-		if vt == nil {
-			logging.Logger.Error("verify notarization - null ticket",
-				zap.String("block", hash))
-			return common.NewError("null_ticket", "Verification ticket is null")
-		}
-		if _, ok := ticketsMap[vt.VerifierID]; ok {
-			return common.NewError("duplicate_ticket_signature",
-				"Found duplicate signatures in the notarization of the block")
-		}
-		ticketsMap[vt.VerifierID] = true
+	if err := checkDistinctVerifiers(hash, bvt); err != nil {
+		return err
 	}
 
 	if !c.reachedNotarization(round, hash, bvt) {
@@ -124,6 +114,42 @@ func (c *Chain) VerifyNotarization(ctx context.Context, hash datastore.Key,
 		zap.Int("tickets_num", len(bvt)))
 
 	return nil
+}
+
+// checkDistinctVerifiers rejects a ticket list that has a null ticket or names the
+// same verifier twice.
+func checkDistinctVerifiers(hash datastore.Key, bvt []*block.VerificationTicket) error {
+	var ticketsMap = make(map[string]bool, len(bvt))
+	for _, vt := range bvt {
+		if vt == nil {
+			logging.Logger.Error("verify notarization - null ticket",
+				zap.String("block", hash))
+			return common.NewError("null_ticket", "Verification ticket is null")
+		}
+		if _, ok := ticketsMap[vt.VerifierID]; ok {
+			return common.NewError("duplicate_ticket_signature",
+				"Found duplicate signatures in the notarization of the block")
+		}
+		ticketsMap[vt.VerifierID] = true
+	}
+	return nil
+}
+
+// VerifyBlockTickets verifies the verification tickets a received block carries for
+// itself: distinct verifiers of the block's round with valid signatures on the block
+// hash. Unlike VerifyNotarization it does not require the threshold to be reached, so
+// it suits a proposal that is sent again with the tickets collected so far.
+func (c *Chain) VerifyBlockTickets(ctx context.Context, b *block.Block) error {
+	bvt := b.GetVerificationTickets()
+	if len(bvt) == 0 {
+		return nil
+	}
+
+	if err := checkDistinctVerifiers(b.Hash, bvt); err != nil {
+		return err
+	}
+
+	return c.VerifyTickets(ctx, b.Hash, bvt, b.Round)
 }
 
 // VerifyRelatedMagicBlockPresence check is there related magic block and
